@@ -286,9 +286,12 @@ def check(prop, tier, seed, replay=None):
                 oc.samples += sample_of(open(path).read().splitlines())
             required = required_cells(tier)
             missing = [k for k in required if oc.cov.get(k, 0) == 0]
-            if missing:
+            if missing and not oc.violations:
                 # vacuity guard: a cell of the plan that no event reached is a defect of the generator, not a verdict
                 raise V.ToolFailure(f"coverage cells not reached ({len(missing)}): {missing[:12]}")
+            if missing:
+                # the code under test behaved so differently that planned cells stayed empty; the violations say why
+                oc.notes.append(f"coverage cells not reached: {missing[:12]}")
         oc.extra["design_models"] = model_info
         oc.extra["runs_of_minimize"] = oc.cov.get("cb|initial", 0)
         oc.extra["iterations_validated"] = sum(v for k, v in oc.cov.items() if k.startswith("iter|"))
